@@ -181,6 +181,34 @@ def check_dict(ctx, L, rng):
         ctx.violation('dict-default-state-leaks', det, mech='dict-default-leak')
 
 
+HOSTILE_TOKENS = ['\xb2', '\u2460', '\u0663', '\uff11', ' 1', '1 ', '+1', '-1', '--1', '1_0', '0x1', '1.5', 'x', '', '?1', '1:2',
+                  '\xb9\u2075', '99999999999999999999', '\t', 'm']
+
+
+def check_hostile_tokens(ctx, L, rng):
+    """a ';'-separated string is accepted whatever its tokens look like: tokens that are not codes contribute
+    nothing with add_erroneous=False (the known codes around them still count), and nothing raises"""
+    known = [rng.choice([1, 3, 31, 44, 4]) for _ in range(rng.randint(0, 3))]
+    toks = [str(k) for k in known]
+    bad = rng.choice(HOSTILE_TOKENS)
+    toks.insert(rng.randint(0, len(toks)), bad)
+    body = ';'.join(toks)
+    ctx.ev('hostile-tokens')
+    ctx.sig('hostile-token')
+    for flag in (False, True):
+        try:
+            res = L.parse_graphic_sequence(body, flag)
+            L.settings_to_dict(res)
+        except ValueError as e:
+            if flag:
+                continue    # add_erroneous=True has to represent the token as a setting; refusing it is not excluded
+            ctx.violation('parse-raised', {'sequence': body, 'add_erroneous': flag, 'error': repr(e)}, mech='parse-raised')
+            return
+        except Exception as e:
+            ctx.violation('parse-raised', {'sequence': body, 'add_erroneous': flag, 'error': repr(e)}, mech='parse-raised')
+            return
+
+
 def contracts(ctx, mon):
     return []
 
@@ -194,5 +222,6 @@ def drive(ctx, mon, tier, only_case=None):
                 check_parse(ctx, L, rng)
             for _ in range(4):
                 check_dict(ctx, L, rng)
+            check_hostile_tokens(ctx, L, rng)
 
     run_cases(ctx, mon, CASES[tier], body, only_case=only_case)
